@@ -1,6 +1,6 @@
 """Level texts of the manifest (what each check assures, and what it trusts)."""
 
-HOOK_COMMITS = []
+HOOK_COMMITS = ['019f6de']
 
 NOT_APPLICABLE = {}
 
